@@ -17,7 +17,7 @@ before the first scanner read, retires losers only after the scan through the jo
 token before publishing a v3 record and the marker token before skipping a retired extent; the writer stamps the
 token with the landing sector. Not decided: that reopened contents are one complete recent generation per key.
 """
-DECIDED = ['the record-batch bracket journals every prepared write (shared with C02.order)', "(a) intent-journal brackets (retire_extents and process_write_batch, the latter shared with C02.order)", "(b) write layering / who-may-call",
+DECIDED = ['writer and readers derive the same extent length (the token covers the padded extent; shared with C05.len)', 'the record-batch bracket journals every prepared write (shared with C02.order)', "(a) intent-journal brackets (retire_extents and process_write_batch, the latter shared with C02.order)", "(b) write layering / who-may-call",
            "(c) replay-before-scan, token verification before publication, journalled post-scan retirement, token stamping",
            'fsync barriers separate intent journal, marker writes and journal clear of a retirement transaction',
            'decode_slot accepts exactly the images the layout allows (touching extents, extent ending at the device end)',
@@ -86,8 +86,7 @@ def check_layer(ctx):
     ctx.note("bodies that reach P_write: %d" % len(ctx.prog.reach_set(V.is_p_write)))
 
 
-def check_bracket(ctx):
-    inst = "C03.bracket/retire_extents"
+def check_bracket(ctx, inst="C03.bracket/retire_extents"):
     body = ctx.fn("DiskIO::retire_extents", inst)
     if body is None:
         return
@@ -327,7 +326,15 @@ def check_token_agreement(ctx):
     C10.check_token(ctx, "C03.token-agreement")
 
 
+def check_extent_len(ctx):
+    """the v3 token covers the whole padded extent: writer and recovery must derive the same extent length for a record, or every
+    such record fails its token after a reopen (same rule as C05.len / C10.extent-len)"""
+    from rules import C05
+    C05.check_len(ctx, "C03.extent-len")
+
+
 def check(ctx):
+    check_extent_len(ctx)
     check_token_agreement(ctx)
     check_journal_validity(ctx)
     check_losers(ctx)
